@@ -199,7 +199,7 @@ def run_property(pid, tier="quick", seed=0, relock=False, only=None, verbose=Tru
         if rt is None:
             continue
         r = run_native("runtime_check.py", {"module": rt["module"], "name": rt["name"], "seed": seed,
-                                            "count": rt.get("replay_count", 20000), "time_s": 60}, timeout=900,
+                                            "count": rt.get("replay_count", 20000), "time_s": 60, "max_failures": 400}, timeout=900,
                        asan=rt.get("asan", False))
         js = r["json"] or {}
         # failures of a class that the stand-in lists as a known finding are not new violations
@@ -218,7 +218,7 @@ def run_property(pid, tier="quick", seed=0, relock=False, only=None, verbose=Tru
         if rt is None:
             continue
         r = run_native("runtime_check.py", {"module": rt["module"], "name": rt["name"], "seed": seed, "count": 30000,
-                                            "time_s": 60}, timeout=600)
+                                            "time_s": 60, "max_failures": 400}, timeout=600)
         js = r["json"] or {}
         js["failures"] = [f for f in js.get("failures", []) if not all(":KNOWN:" in x for x in f.get("failed", ["x"]))]
         entry = {"name": f"runtime contract of {c.name} (contract could not be attached)", "bounded": True,
@@ -271,7 +271,7 @@ def prop_runtime_search(pid, seed):
     key = (pid, seed)
     if key not in _PRT_CACHE:
         m, n, prefix = PROP_RUNTIME[pid]
-        r = run_native("runtime_check.py", {"module": m, "name": n, "seed": seed + 77, "count": 30000, "time_s": 90, "prefix": prefix}, timeout=900)
+        r = run_native("runtime_check.py", {"module": m, "name": n, "seed": seed + 77, "count": 30000, "time_s": 90, "prefix": prefix, "max_failures": 400}, timeout=900)
         js = r["json"] or {}
         js["failures"] = [f for f in js.get("failures", []) if not all(":KNOWN:" in x for x in f.get("failed", ["x"]))]
         _PRT_CACHE[key] = js
@@ -290,8 +290,11 @@ def replay_violation(pid, v, mod, seed):
     rt = getattr(c, "runtime", None) if c is not None else None
     if rt is not None:
         payload = {"module": rt["module"], "name": rt["name"], "seed": seed, "count": rt.get("replay_count", 20000),
-                   "model": o.model}
+                   "model": o.model, "max_failures": 400}
         r = run_native("runtime_check.py", payload, timeout=900, asan=rt.get("asan", False))
+        if r["json"]:
+            # failures of a class that is listed as a known finding are not what this obligation is about
+            r["json"]["failures"] = [f for f in r["json"].get("failures", []) if not all(":KNOWN:" in x for x in f.get("failed", ["x"]))][:5]
         data["native_search"] = {"returncode": r["returncode"], "result": r["json"], "stderr": r["stderr"][-1500:]}
         if r["json"] and r["json"].get("failures"):
             found = r["json"]["failures"][0]
